@@ -278,7 +278,7 @@ def run_coq_cases(scratch: str, header: str, case_terms: list[str], case_type: s
         files.append(path)
 
     def one(path):
-        return sh(["coqc", "-Q", COQ, "Bardic", path], timeout=timeout, cwd=scratch)
+        return sh(f"ulimit -s unlimited 2>/dev/null; exec coqc -Q {COQ} Bardic {path}", timeout=timeout, cwd=scratch)
 
     bad, logs = [], []
     with ThreadPoolExecutor(max_workers=jobs) as ex:
@@ -304,7 +304,7 @@ def run_coq_cases(scratch: str, header: str, case_terms: list[str], case_type: s
             f.write("Set Printing Width 1000000.\nSet Printing Depth 1000000.\n")
             for i in idx[:5]:
                 f.write(f"Eval vm_compute in ({show_fn} ({case_terms[i]})).\n")
-        rc, out = sh(["coqc", "-Q", COQ, "Bardic", path], timeout=timeout, cwd=scratch)
+        rc, out = sh(f"ulimit -s unlimited 2>/dev/null; exec coqc -Q {COQ} Bardic {path}", timeout=timeout, cwd=scratch)
         chunks = re.split(r"^\s*=\s", out, flags=re.M)[1:]
         for i, c in zip(idx[:5], chunks):
             shown[i] = c.strip()[:4000]
